@@ -2,6 +2,7 @@
 Property C09 — every evaluation leaves the engine's scope/call stack as it found it.
 -/
 import ChaiVerif.Lemmas.ChaiRunShape
+import ChaiVerif.Lemmas.ChaiRunFrame
 namespace ChaiVerif.C09
 open ChaiVerif.Chai
 
@@ -23,6 +24,86 @@ theorem raii_guards_restore (g : St → R) (s : St) (h : ∀ t, (g t).2.shape = 
 theorem toplevel_rests (ρ : List FunDef) (fuel : Nat) (prog : List Node) (s : St)
     (h : s.shape = ([1], 1, 0)) : (run ρ fuel (.seq prog) s).2.shape = ([1], 1, 0) := by
   rw [run_shape]; exact h
+
+/-! ### what remains visible -/
+
+/-- **An evaluation only ever adds names to the innermost scope of the current stack**: every other scope of every stack, and every
+    name already in the innermost scope, is exactly as before — whatever the outcome (value, error, C++ exception, escape, out of fuel). -/
+theorem eval_only_extends_innermost_scope (ρ : List FunDef) (fuel : Nat) (j : Job) (s : St) :
+    ∃ ext : Scope, (run ρ fuel j s).2.stacks = modifyLast (modifyLast (· ++ ext)) s.stacks := run_frame ρ fuel j s
+
+/-- **Nothing declared inside a block survives it** (normal exit or not): the stacks are exactly what they were. -/
+theorem block_leaves_nothing (ρ : List FunDef) (fuel : Nat) (xs : List Node) (s : St) :
+    (run ρ (fuel + 1) (.node (.block xs)) s).2.stacks = s.stacks := by
+  simp only [run]
+  exact withScope_stacks _ _ (fun t => run_frame ρ fuel _ t)
+
+/-- … nor inside a loop (its condition scope, its body, a counting loop's counter) … -/
+theorem loops_leave_nothing (ρ : List FunDef) (fuel : Nat) (c b i st : Node) (x : Name) (lo hi : Int) (s : St) :
+    (run ρ (fuel + 1) (.node (.whileN c b)) s).2.stacks = s.stacks ∧
+    (run ρ (fuel + 1) (.node (.forN i c st b)) s).2.stacks = s.stacks ∧
+    (run ρ (fuel + 1) (.node (.cfor x lo hi b)) s).2.stacks = s.stacks := by
+  refine ⟨?_, ?_, ?_⟩
+  · have h := run_frame ρ (fuel + 1) (.node (.whileN c b)) s
+    simp only [run] at h ⊢
+    refine withScope_stacks _ _ (fun t => ?_)
+    have hh := run_frame ρ fuel (.whileL c b) t
+    generalize run ρ fuel (.whileL c b) t = rr at hh ⊢
+    obtain ⟨oo, tt⟩ := rr
+    cases oo <;> first | exact hh | exact hh.trans (Frame.of_eq rfl)
+  · simp only [run]
+    refine withScope_stacks _ _ (fun t => ?_)
+    refine bnd_frame _ _ _ (run_frame ρ fuel _ _) (fun l t1 => ?_)
+    have hh := run_frame ρ fuel (.forL c st b) t1
+    generalize run ρ fuel (.forL c st b) t1 = rr at hh ⊢
+    obtain ⟨oo, tt⟩ := rr
+    cases oo <;> first | exact hh | exact hh.trans (Frame.of_eq rfl)
+  · have h := run_frame ρ (fuel + 1) (.node (.cfor x lo hi b)) s
+    -- the cfor node is `withScope (…)`: reuse the general theorem through the shape of its definition
+    simp only [run] at h ⊢
+    refine withScope_stacks _ _ (fun t => ?_)
+    split
+    · exact Frame.of_eq rfl
+    · rename_i s2 h2
+      have e2 := (Frame.of_eq (s := t) (t := (t.allocV (.int lo)).2) rfl).trans (Frame.addObject h2)
+      have hh := run_frame ρ fuel (.cforL t.objs.length hi b) s2
+      generalize run ρ fuel (.cforL t.objs.length hi b) s2 = rr at hh ⊢
+      obtain ⟨oo, tt⟩ := rr
+      cases oo <;> first | exact e2.trans hh | exact (e2.trans hh).trans (Frame.of_eq rfl)
+
+/-- … nor inside a function call: parameters, captures and locals of the callee live on a stack of their own that is gone afterwards. -/
+theorem call_leaves_nothing (ρ : List FunDef) (fuel : Nat) (fid : Nat) (caps : List (Name × Loc)) (args : List Loc) (s : St) :
+    (run ρ fuel (.callFn fid caps args) s).2.stacks = s.stacks := by
+  cases fuel with
+  | zero => rfl
+  | succ f =>
+    simp only [run]
+    split
+    · rfl
+    · rename_i fd hfd
+      refine withStack_stacks _ _ (fun t => ?_)
+      split
+      · exact Frame.refl t
+      · rename_i s1 h1
+        split
+        · exact Frame.addAll _ h1
+        · rename_i s2 h2
+          have e2 := (Frame.addAll _ h1).trans (Frame.addAll _ h2)
+          have hh := run_frame ρ f (.node fd.body) s2
+          generalize run ρ f (.node fd.body) s2 = rr at hh ⊢
+          obtain ⟨oo, tt⟩ := rr
+          cases oo <;> exact e2.trans hh
+
+/-- **Top-level declarations completed before a failure remain visible**: whatever a statement sequence does, every name that was in
+    scope before it is still bound to the same Data record afterwards. -/
+theorem earlier_declarations_survive (ρ : List FunDef) (fuel : Nat) (prog : List Node) (s : St) (st : List Scope) (sc : Scope)
+    (hs : s.stacks = [st ++ [sc]]) :
+    ∃ ext, (run ρ fuel (.seq prog) s).2.stacks = [st ++ [sc ++ ext]] := by
+  obtain ⟨ext, he⟩ := run_frame ρ fuel (.seq prog) s
+  refine ⟨ext, ?_⟩
+  rw [he, hs]
+  simp only [modifyLast]
+  rw [modifyLast_append_singleton]
 
 /-- non-vacuity: a program that throws from a callback inside a function inside a loop inside a try
     still ends in the resting shape, and the state really was perturbed on the way (heap grew). -/
